@@ -92,6 +92,8 @@ def transformations(case, rng):
                 kw3[n] = kw3[n][keep]
             elif isinstance(kw3[n], xr.DataArray):
                 kw3[n] = kw3[n].isel(x=keep)
+        if "fix_alpha" in kw3:   # a supplied alpha is defined per location: the deleted locations are deleted from it as well
+            kw3["fix_alpha"] = (np.asarray(kw3["fix_alpha"][0])[keep], np.asarray(kw3["fix_alpha"][1])[keep])
         sel1 = lambda out: {k: out[k].values[keep] for k in names}
         yield "delete-unreferenced", ds3, kw3, ident, sel1
     # (f) permuting the time steps
@@ -176,7 +178,13 @@ def gen_params(ctx):
                  "nx": int(rng.integers(16, 24)), "nt": int(rng.integers(2, 4)), "var_mode": str(rng.choice(["float", "float", "array_prop", "callable"]))}
         if k % 6 == 0:
             force["nt"] = 1
-        out.append(calib.random_params(rng, double, quick=True, **force))
+        pp = calib.random_params(rng, double, quick=True, **force)
+        if k % 3 == 2:   # the information-free transformations and the purity clauses also hold with fixed parameters
+            pp["fix"] = [["gamma", "dalpha", "gamma+dalpha"], ["gamma", "alpha", "alpha+gamma"]][int(double)][(k // 6) % 3]
+            pp["fix_var"] = 0.0
+            if "alpha" in pp["fix"].split("+") and not double:
+                pp["nmatch"] = 0
+        out.append(pp)
     return out
 
 
